@@ -30,6 +30,10 @@ VAL_SRC: Dict[str, List[str]] = {
     "purepath": ['PurePosixPath("/x0")', 'PurePosixPath("/x1")', 'PurePosixPath("/x2")'],
     # a tuple holding a list: in-process edits MUTATE the list in place (same tuple object)
     "tuplelist": ['("v", [1])', '("v", [1, 2])'],
+    # a concrete, RELATIVE pathlib.Path: its hash must not involve the working directory
+    "relpath": ['pathlib.Path("data/in0.csv")', 'pathlib.Path("data/in1.csv")', 'pathlib.Path("data/sub/../in0.csv")'],
+    # an instance of a dataclass defined in the accepted module itself (moves with the code)
+    "dataclass_local": ["DCm(1, 2)", "DCm(1, 3)", "DCm(2, 3)"],
     "namedtuple": ["L.NT(1, 2)", "L.NT(1, 3)", "L.NT(2, 3)"],
     "dataclass": ["L.DC(1, 2)", "L.DC(1, 3)", "L.DC(2, 3)"],
 }
@@ -39,6 +43,7 @@ encoders.  dds sees it by name only."""
 import collections
 import dataclasses
 import datetime
+import pathlib
 from pathlib import PurePosixPath
 
 EXT_VER = %(ext)d
@@ -67,6 +72,8 @@ def hit(name):
 def enc(name, value):
     """Version index of the value of variable `name` (-1 when it is none of its versions)."""
     vs = VALS.get(name, [])
+    if dataclasses.is_dataclass(value) and type(value).__name__ == "DCm":
+        value = ("DCm",) + dataclasses.astuple(value)      # the class lives in the generated module
     for (i, v) in enumerate(vs):
         if type(v) is type(value) and v == value:
             return i
@@ -76,13 +83,16 @@ def enc(name, value):
 ARG_VALS = [0, None, "", 1]
 
 
-def rt(x):
-    """A run-time (non literal) argument expression."""
-    return x%(extbody)s
+def rt(x, sofar):
+    """A run-time (non literal) argument: computed from a literal and from what the caller has
+    obtained so far (the values of its earlier statements)."""
+    return [encx(x), list(sofar)]%(extbody)s
 
 
 def encx(x):
     """Version index of an argument value (several falsy values on purpose); other values as is."""
+    if isinstance(x, list):
+        return x
     for (i, v) in enumerate(ARG_VALS):
         if type(v) is type(x) and v == x:
             return i
@@ -102,7 +112,7 @@ def _vals_table(shape: Shape) -> str:
     lines = []
     for v in shape.vars:
         lines.append("VALS[%r] = [%s]" % (v, ", ".join(
-            s.replace("L.", "") for s in VAL_SRC[shape.vtype[v]])))
+            s.replace("L.", "").replace("DCm(", '("DCm", ') for s in VAL_SRC[shape.vtype[v]])))
     return "\n".join(lines) + "\n"
 
 
@@ -137,14 +147,14 @@ def _stmt_lines(shape: Shape, f: str, i: int, s: Dict[str, str], args: Dict[Tupl
         return ["    sv.append(dds.keep(%r, %s, x=%s))" % (s["p"], g, lit)]
     assert a == "runtime", s
     if s["lay"] == "1":
-        return ["    sv.append(dds.keep(%r, %s, L.rt(%s)))" % (s["p"], g, lit)]
+        return ["    sv.append(dds.keep(%r, %s, L.rt(%s, sv)))" % (s["p"], g, lit)]
     if s["lay"] == "2":
         return ["    sv.append(dds.keep(%r, %s," % (s["p"], g),
-                "                       L.rt(%s)))" % lit]
+                "                       L.rt(%s, sv)))" % lit]
     # three-line layout: the literal sits on the third line of the call
     return ["    sv.append(dds.keep(%r, %s," % (s["p"], g),
             "                       L.rt(",
-            "                           %s)))" % lit]
+            "                           %s, sv)))" % lit]
 
 
 def _fun_src(shape: Shape, f: str, prog: Dict[str, Any], names: Dict[str, str]) -> List[str]:
@@ -185,7 +195,9 @@ def _filler(n: int, tag: str) -> List[str]:
     return res
 
 
-HEADER = ["import datetime", "from pathlib import PurePosixPath", "import dds", "import _vlog as L"]
+HEADER = ["import dataclasses", "import datetime", "import pathlib", "from pathlib import PurePosixPath", "import dds",
+          "import _vlog as L"]
+DCM_SRC = ["", "", "@dataclasses.dataclass(frozen=True)", "class DCm:", "    a: int", "    b: int"]
 
 
 EXT_PKG = "vext"
@@ -233,6 +245,7 @@ def files_of(shape: Shape, prog: Dict[str, Any]) -> Dict[str, str]:
         "ext": ext, "extbody": "" if ext == 0 else "  # ext edit %d" % ext}) + (
         "" if ext == 0 else "\n\ndef ext_added_%d():\n    return %d\n" % (ext, ext)) + "\n" + _vals_table(shape)
     by_mod: Dict[str, List[str]] = {}
+    facade_exports: List[Tuple[str, str]] = []
     for f in shape.funs:
         by_mod.setdefault(mods[f], []).append(f)
     import_form = shape.real.get("import_form", "from")
@@ -256,6 +269,14 @@ def files_of(shape: Shape, prog: Dict[str, Any]) -> Dict[str, str]:
                 names["keep:" + g] = "kept_" + g
             if g in klass:
                 lines.append("from %s import K_%s" % (gm, g))
+            elif import_form == "facade":
+                if g in kept_needed:
+                    lines.append("from %s import %s" % (gm, g))
+                else:
+                    if "import vfacade.api as FA" not in lines:
+                        lines.append("import vfacade.api as FA")
+                    names[g] = "FA." + g
+                    facade_exports.append((gm, g))
             elif import_form == "from":
                 lines.append("from %s import %s" % (gm, g))
             elif import_form == "from_as":
@@ -272,6 +293,8 @@ def files_of(shape: Shape, prog: Dict[str, Any]) -> Dict[str, str]:
         lines += _filler(unrel, "top")
         # variables read by the functions of this module (one line each: stable line count)
         vs = sorted(set(v for f in funs for v in shape.reads[f]))
+        if any(shape.vtype[v] == "dataclass_local" for v in vs):
+            lines += DCM_SRC + ["", ""]
         for v in vs:
             lines.append("%s = %s" % (v, VAL_SRC[shape.vtype[v]][prog["vval"][v]]))
         order = list(funs)
@@ -283,6 +306,12 @@ def files_of(shape: Shape, prog: Dict[str, Any]) -> Dict[str, str]:
                 lines += _filler(1, "after_" + f)
         rel = mod.replace(".", "/") + ".py"
         files[rel] = "\n".join(lines) + "\n"
+        if facade_exports:
+            # a NON-accepted facade that only re-exports accepted functions (imported lazily to stay acyclic)
+            files["vfacade/__init__.py"] = ""
+            body = ["# non-accepted facade: only re-exports functions defined in accepted modules"]
+            body += ["from %s import %s" % (gm, g) for (gm, g) in sorted(set(facade_exports))]
+            files["vfacade/api.py"] = "\n".join(body) + "\n"
         # package __init__ files
         parts = mod.split(".")[:-1]
         for i in range(1, len(parts) + 1):
